@@ -31,8 +31,10 @@ def mv_to_s0(sim, mv, pad_rnd=None):
 
 
 def codes(sim, which, lanes):
+    """lanes: number of leading lanes, or a list of lane positions (wide batches: only sampled lanes are recorded)."""
     from kyupy import logic
-    mv = logic.bp_to_mv(sim.s[which])[:, :lanes]
+    mv = logic.bp_to_mv(sim.s[which])
+    mv = mv[:, :lanes] if isinstance(lanes, int) else mv[:, list(lanes)]
     if sim.m == 2:
         mv = mv & 1
     elif sim.m == 4:
@@ -86,21 +88,31 @@ def rand_stim(rnd, m, slen, lanes, families=True):
     return [[cols[p][i] for p in range(lanes)] for i in range(slen)]
 
 
-def record(c, st, m, lanes, stim, reuse, strip, use_cb, rnd, cycles=()):
-    """Observation record of the real simulator for LogicSimT.tla."""
+def record(c, st, m, lanes, stim, reuse, strip, use_cb, rnd, cycles=(), wide=None):
+    """Observation record of the real simulator for LogicSimT.tla.
+    wide = [N, positions]: the simulator is built for N patterns (beyond 8- and 16-bit ranges); the recorded stimulus
+    columns sit at the given lane positions, all other lanes carry a derived filler; only the sampled lanes are recorded."""
     rec = dict(st=st, m=m, lanes=lanes, stim=stim, resp=[], respB=[], cyc=[], raised=False,
                opts=dict(reuse=reuse, strip=strip, cb=use_cb))
     try:
         noop = (lambda line, v: None)
         warm = rand_stim(rnd, m, len(stim), lanes, families=False) if rnd.random() < 0.4 else None
-        a = run_logic(c, m, lanes, stim, reuse, strip, noop, use_cb, warm=warm)
-        b = run_logic(c, m, lanes, stim, reuse, strip, noop, use_cb, pad_rnd=rnd)
-        rec['resp'] = codes(a, 1, lanes)
-        rec['respB'] = codes(b, 1, lanes)
+        n, sel, full = lanes, lanes, stim
+        if wide is not None:
+            n, sel = int(wide[0]), [int(x) for x in wide[1]]
+            alpha = {2: 2, 4: 4, 8: 8}[m]
+            arr = (np.add.outer(np.arange(len(stim)) * 5, np.arange(n) * 3) % alpha).astype(np.uint8)      # deterministic filler
+            arr[:, sel] = np.array(stim, dtype=np.uint8)
+            full = arr
+            warm = None
+        a = run_logic(c, m, n, full, reuse, strip, noop, use_cb, warm=warm)
+        b = run_logic(c, m, n, full, reuse, strip, noop, use_cb, pad_rnd=rnd)
+        rec['resp'] = codes(a, 1, sel)
+        rec['respB'] = codes(b, 1, sel)
         if m == 2:
             for k in cycles:
-                s = run_logic(c, m, lanes, stim, reuse, strip, noop, use_cb, cycles=k)
-                rec['cyc'].append(dict(k=k, s0=codes(s, 0, lanes)))
+                s = run_logic(c, m, n, full, reuse, strip, noop, use_cb, cycles=k)
+                rec['cyc'].append(dict(k=k, s0=codes(s, 0, sel)))
     except Exception as e:
         rec['raised'] = True
         rec['err'] = repr(e)[:300]
